@@ -21,9 +21,48 @@ ASSUMPTIONS = [
 FE = 0xFE
 
 
+class Raised:
+    """What a call into the code under test returned when it raised: an observation that equals no expected value."""
+
+    def __init__(self, e):
+        self.text = f"raised {type(e).__name__}: {e}"
+
+    def __repr__(self):
+        return self.text
+
+    def hex(self):
+        return self.text
+
+    def __getitem__(self, k):
+        return self
+
+    def __len__(self):
+        return 0
+
+    def __iter__(self):
+        return iter(())
+
+    def __contains__(self, x):
+        return False
+
+
+def _plain(v):
+    return repr(v) if isinstance(v, Raised) else v
+
+
+def _guard(fn):
+    def call(*a):
+        try:
+            return fn(*a)
+        except Exception as e:  # noqa: BLE001
+            return Raised(e)
+
+    return call
+
+
 def _codec():
     m = loader.lib("eolib.data.number_encoding_utils")
-    return m.encode_number, m.decode_number
+    return _guard(m.encode_number), _guard(m.decode_number)
 
 
 def _check_block(d3, d2, d1s, out, limit=5):
@@ -319,8 +358,8 @@ def run(tier, seed):
         violations.append({"key": "argument-form:" + w.split("(")[0], "what": w, "case": {"kind": "forms", "value": 0}})
 
     samples = [
-        {"n": n, "encoded": enc(n).hex(), "decoded": dec(enc(n))} for n in (0, 252, 253, 64008, 64009, P3 - 1, P3, P4 - 1)
-    ] + [{"bytes": s.hex(), "decoded": dec(s)} for s in (b"", b"\x00", b"\xfe\x05", b"\x02\xfe\x09", b"\xff\xff\xff\xff")]
+        {"n": n, "encoded": enc(n).hex(), "decoded": _plain(dec(enc(n)))} for n in (0, 252, 253, 64008, 64009, P3 - 1, P3, P4 - 1)
+    ] + [{"bytes": s.hex(), "decoded": _plain(dec(s))} for s in (b"", b"\x00", b"\xfe\x05", b"\x02\xfe\x09", b"\xff\xff\xff\xff")]
     coverage = {
         "evaluations": evals,
         "distinct_nontrivial": evals - 1,
